@@ -1,18 +1,29 @@
 """
-C18 — path canonicalisation.  Proof: Sqfs/Props/C18.lean (model = component-level specification, for all
-strings).  Tie: the real canonicalize_name.c / filename_sane.c from the working tree, under ASan+UBSan, on the
-same inputs as the native model driver: exhaustive over {'/', '.', 'a', 0xC3} up to length 8 (quick) / 10
-(thorough) plus random long strings; plus tool-level funnel probes.
+C18 — path canonicalisation.  Proof: Sqfs/Props/C18.lean (functional model = component-level specification, for
+all strings; in-place memory model = functional model, for all NUL-free strings and any bytes behind them).
+Tie (unit): the real canonicalize_name.c / filename_sane.c from the working tree, under ASan+UBSan, on the same
+script as the native model driver: exhaustive over {'/', '.', 'a', 0xC3} up to length 8 (quick) / 10 (thorough)
+plus random long strings; per input the result, the sanity verdict and the *whole array* after the call
+(`canonmem`, compared with the in-place model byte for byte); the property's clauses are evaluated on the
+implementation's own answers.
+Tie (funnel): every call of the two functions found in the clang AST (checks/c18_ast.py) is driven through its
+tool or library entry with inputs from the model's reject and accept sets (checks/c18_funnel.py).
 """
-import itertools, json, os, subprocess
+import collections, itertools, json, os, subprocess
 import vlib
+from checks import c18_ast, c18_funnel
 
 LEVEL = "proof"
 MODULE = "Sqfs.Props.C18"
 REQUIRED = ["Sqfs.C18.canon_eq_spec", "Sqfs.C18.canon_fails_iff_dotdot", "Sqfs.C18.canon_same_entry_and_clean",
             "Sqfs.C18.canon_length_le", "Sqfs.C18.canon_idempotent", "Sqfs.C18.sane_iff",
-            "Sqfs.C18.norm_dst_le_src", "Sqfs.C18.canon_dst_le_src"]
+            "Sqfs.C18.norm_dst_le_src", "Sqfs.C18.canon_dst_le_src",
+            "Sqfs.C18.canon_inplace_memory", "Sqfs.C18.norm_inplace_memory", "Sqfs.C18.canon_inplace_eq_model"]
 ALPHA = [0x2f, 0x2e, 0x61, 0xc3]
+TRUSTED = ["C strings are modelled as their bytes before the NUL; the in-place rewriting is modelled twice: functionally (read original / emit output) and as C statements over one byte array (Model/C18InPlace.lean); canon_inplace_memory proves the two equal, and the whole array after the call is compared with the real code on every run",
+           "modelled: lib/util/src/canonicalize_name.c, lib/util/src/filename_sane.c (POSIX branch); the call sites that funnel names through them are enumerated from the clang AST and probed behaviourally, not proved",
+           "funnel probes: clang 14 AST dump; tools/sqfs_forge.py (hostile images); tools/checks/c18_sqfsls.py (independent read-back of stored names)"]
+ASSUMPTIONS = []
 
 
 def tok(b):
@@ -50,6 +61,44 @@ def clause_failures(s, res, res2):
         bad.append("never-grows")
     if res2 != "n/a" and res2 != res:
         bad.append("idempotent")
+    return bad
+
+
+# bytes placed behind the string's terminator for the `canonmem` op (whole array compared with the in-place model)
+TAILS = [b"", b"\xa5", b"/..", b"\x00./", b"a/\x00b", b"\xff" * 8]
+K = 4        # script lines per input: canon, sane, canonmem, norm
+
+
+def memory_clause_failures(s, tail, res, line):
+    """canon_inplace_memory evaluated on the implementation's own array: result, terminator, then (after whatever
+    is left of the old contents) the bytes behind the old terminator untouched; array length unchanged"""
+    if res is None:
+        return [] if line == "fail" else ["memory:fail-mismatch"]
+    if not line.startswith("ok "):
+        return ["memory:protocol"]
+    mem = untok(line[3:])
+    bad = []
+    if len(mem) != len(s) + 1 + len(tail):
+        bad.append("memory:length")
+    if mem[:len(res)] != res or mem[len(res):len(res) + 1] != b"\0":
+        bad.append("memory:result-and-terminator")
+    if mem[len(s) + 1:] != tail:
+        bad.append("memory:bytes-behind-terminator")
+    return bad
+
+
+def norm_clause_failures(s, tail, line):
+    """normalize_slashes alone: no leading, trailing or repeated slash, every other byte kept in order; bytes behind
+    the old terminator untouched"""
+    if not line.startswith("ok "):
+        return ["norm:protocol"]
+    mem = untok(line[3:])
+    want = b"/".join(c for c in s.split(b"/") if c)
+    bad = []
+    if len(mem) != len(s) + 1 + len(tail) or mem[len(s) + 1:] != tail:
+        bad.append("norm:bytes-behind-terminator")
+    if mem[:len(want)] != want or mem[len(want):len(want) + 1] != b"\0":
+        bad.append("norm:result")
     return bad
 
 
@@ -92,174 +141,145 @@ def gen_inputs(ctx):
 
 
 def run_pair(ctx, harness, lines):
+    """the real code and the model on the same script.  Returns (impl lines, model lines, crash) where crash is
+    (lines answered, exit status, stderr tail) when the real code did not answer every line.  The model driver must
+    answer every line (anything else is a failure of the check's own machinery)."""
     text = "\n".join(lines) + "\n"
-    r = vlib.sh([str(harness)], input=text, env=ctx.san_env(), timeout=1200)
+    r = vlib.sh([str(harness)], input=text, env=ctx.san_env(), timeout=3600)
     impl = r.stdout.splitlines()
     if r.returncode != 0 or len(impl) != len(lines):
-        # sanitizer abort or crash: locate the offending line by bisection of the prefix that produced output
-        k = len(impl)
-        return impl, None, (k, r.returncode, r.stderr[-3000:])
-    model = ctx.driver(["c18"], text)
+        return impl, None, (len(impl), r.returncode, r.stderr[-3000:])
+    model = ctx.driver(["c18"], text, timeout=3600)
+    if len(model) != len(lines):
+        raise vlib.CheckFailure("C18: model driver answered %d of %d lines" % (len(model), len(lines)))
+    bad = [l for l in model if l == "bad-op"]
+    if bad:
+        raise vlib.CheckFailure("C18: model driver could not parse %d generated line(s)" % len(bad))
     return impl, model, None
 
 
-# expected number of textual call sites per file on the pinned tree (used to *aim* the search; a missing call is
-# reported only together with a behavioural witness, or as no-failing-input-found)
-CALLSITES = {
-    "lib/fstree/src/fstree.c": ("canonicalize_name", 1),
-    "lib/tar/src/iterator.c": ("canonicalize_name", 1),
-    "bin/sqfs2tar/src/options.c": ("canonicalize_name", 2),
-    "bin/gensquashfs/src/sort_by_file.c": ("canonicalize_name", 2),
-    "bin/gensquashfs/src/apply_xattr.c": ("canonicalize_name", 1),
-    "bin/gensquashfs/src/mkfs.c": ("canonicalize_name", 1),
-    "bin/gensquashfs/src/filemap_xattr.c": ("canonicalize_name", 1),
-    "bin/gensquashfs/src/glob.c": ("canonicalize_name", 1),
-    "bin/gensquashfs/src/fstree_from_file.c": ("canonicalize_name", 1),
-    "bin/tar2sqfs/src/options.c": ("canonicalize_name", 2),
-    "bin/tar2sqfs/src/process_tarball.c": ("canonicalize_name", 1),
-    "bin/rdsquashfs/src/options.c": ("canonicalize_name", 1),
-    "bin/rdsquashfs/src/fill_files.c": ("canonicalize_name|is_filename_sane", 2),
-    "bin/rdsquashfs/src/restore_fstree.c": ("canonicalize_name|is_filename_sane", 4),
-    "bin/rdsquashfs/src/describe.c": ("canonicalize_name|is_filename_sane", 2),
-    "bin/sqfsdiff/src/util.c": ("canonicalize_name", 1),
-}
+def unit_correspondence(ctx):
+    """canonicalize_name.c / filename_sane.c of the working tree against the Lean model, and the property's clauses
+    evaluated on the implementation's own answers.  Returns a dict for the evidence."""
+    harness = ctx.cc("h_c18", ["h_c18.c", "lib/util/src/filename_sane.c"])
+    inputs, ncorpus, nexh, nrand = gen_inputs(ctx)
+    if nexh < 4 ** 8 or nrand <= 0:
+        raise vlib.CheckFailure("C18: generator produced %d exhaustive and %d random inputs" % (nexh, nrand))
+    lines = []
+    for i, s in enumerate(inputs):
+        lines.append("canon " + tok(s))
+        lines.append("sane " + tok(s))
+        lines.append("canonmem %s %s" % (tok(s), tok(TAILS[i % len(TAILS)])))
+        lines.append("norm %s %s" % (tok(s), tok(TAILS[(i + 1) % len(TAILS)])))
+    impl, model, crash = run_pair(ctx, harness, lines)
+    if crash:
+        k, rc, err = crash
+        ctx.violation("crash:" + lines[min(k, len(lines) - 1)], "real code aborted (rc=%d) on input line %d: %s" % (rc, k, err[-400:]),
+                      {"line": lines[min(k, len(lines) - 1)], "input_hex": lines[min(k, len(lines) - 1)].split()[1], "stderr": err})
+        return None
+    # second pass for idempotence on the implementation's own outputs
+    results = [parse_canon(impl[K * i]) for i in range(len(inputs))]
+    uniq_out = sorted({r for r in results if isinstance(r, bytes)})
+    if not uniq_out:
+        raise vlib.CheckFailure("C18: the implementation accepted none of %d inputs - the idempotence pass would be empty" % len(inputs))
+    lines2 = ["canon " + tok(r) for r in uniq_out]
+    impl2, model2, crash2 = run_pair(ctx, harness, lines2)
+    if crash2:
+        k, rc, err = crash2
+        ctx.violation("crash:" + lines2[min(k, len(lines2) - 1)], "real code aborted (rc=%d) when canonicalising its own output, line %d: %s" % (rc, k, err[-400:]),
+                      {"line": lines2[min(k, len(lines2) - 1)], "input_hex": lines2[min(k, len(lines2) - 1)].split()[1], "stderr": err})
+        return None
+    if len(impl2) != len(uniq_out) or len(model2) != len(uniq_out):
+        raise vlib.CheckFailure("C18: idempotence pass answered %d/%d of %d lines" % (len(impl2), len(model2), len(uniq_out)))
+    again = {r: parse_canon(l) for r, l in zip(uniq_out, impl2)}
+    mism, nontrivial, clause_bad, proto_bad = 0, set(), 0, 0
+    for i, s in enumerate(inputs):
+        res = results[i]
+        if isinstance(res, str):
+            proto_bad += 1
+            if proto_bad <= 5:
+                ctx.violation("protocol:" + tok(s), "harness answered %r" % res, {"input_hex": tok(s)})
+            continue
+        if res is not None and res not in again:
+            raise vlib.CheckFailure("C18: no second-pass answer for %r" % res)
+        res2 = again[res] if res is not None else "n/a"
+        bad = clause_failures(s, res, res2)
+        sane_impl = impl[K * i + 1]
+        if sane_impl not in ("0", "1") or (sane_impl == "1") != sane_spec(s):
+            bad.append("sane-iff")
+        bad += memory_clause_failures(s, TAILS[i % len(TAILS)], res, impl[K * i + 2])
+        bad += norm_clause_failures(s, TAILS[(i + 1) % len(TAILS)], impl[K * i + 3])
+        diff = any(impl[K * i + j] != model[K * i + j] for j in range(K))
+        if res is None or res != s:
+            nontrivial.add(s)
+        if bad:
+            clause_bad += 1
+            if clause_bad <= 5:
+                ctx.violation("input:" + tok(s), "canonicalize_name/is_filename_sane violate clause(s) %s on input %r: impl=%s model=%s" % (
+                    bad, s, impl[K * i], model[K * i]), {"input_hex": tok(s), "impl": impl[K * i:K * i + K],
+                                                        "model": model[K * i:K * i + K], "clauses": bad})
+        elif diff:
+            mism += 1
+            if mism <= 5:
+                # cannot happen while canon_eq_spec holds (model = spec and impl meets every clause => impl = spec)
+                ctx.violation("corr:" + tok(s), "correspondence broke on %r (impl=%s model=%s) but no clause fails" % (s, impl[K * i:K * i + K], model[K * i:K * i + K]),
+                              {"input_hex": tok(s), "correspondence": "harness/h_c18.c vs Driver/C18.lean"}, found_input=False)
+    for r, a, b in zip(uniq_out, impl2, model2):
+        if a != b:
+            mism += 1
+            if mism <= 5:
+                ctx.violation("corr:" + tok(r), "correspondence broke on %r (impl=%s model=%s), second pass" % (r, a, b),
+                              {"input_hex": tok(r), "correspondence": "harness/h_c18.c vs Driver/C18.lean"}, found_input=False)
+    return {"evaluations": len(lines) + len(lines2), "nontrivial": len(nontrivial), "nexh": nexh, "ncorpus": ncorpus, "nrand": nrand,
+            "mism": mism, "clause_bad": clause_bad + proto_bad, "second_pass": len(lines2),
+            "samples": [{"input": repr(inputs[i]), "impl": impl[K * i], "model": model[K * i], "impl_memory": impl[K * i + 2][:80]} for i in
+                        [ncorpus + 7, ncorpus + 333, ncorpus + 4242, len(inputs) - 1] if i < len(inputs)]}
 
 
-def callsite_scan(ctx):
-    import re
-    missing = []
-    for f, (pat, want) in CALLSITES.items():
-        p = vlib.REPO / f
-        n = len(re.findall(r"\b(?:%s)\s*\(" % pat, p.read_text(errors="replace"))) if p.exists() else 0
-        if n < want:
-            missing.append({"file": f, "calls": pat, "found": n, "expected": want})
-    return missing
-
-
-def mktar(path, members):
-    """members: list of (name, type, linkname, data)"""
-    import tarfile, io
-    with tarfile.open(path, "w", format=tarfile.GNU_FORMAT) as tf:
-        for name, typ, link, data in members:
-            ti = tarfile.TarInfo(name)
-            ti.type = typ
-            ti.linkname = link or ""
-            ti.size = len(data) if typ == tarfile.REGTYPE else 0
-            ti.mode = 0o755 if typ == tarfile.DIRTYPE else 0o644
-            tf.addfile(ti, io.BytesIO(data) if typ == tarfile.REGTYPE else None)
-
-
-def tool_probes(ctx):
-    """Funnel clause, behaviourally: every anchored entry point of a name/path into the tools either refuses a
-    '..' component or stores/uses the canonical form.  Returns [(name, ok, detail)]."""
-    import tarfile, shutil
-    res = []
-    gen = ctx.build_tool("gensquashfs")
-    t2s = ctx.build_tool("tar2sqfs")
-    rd = ctx.build_tool("rdsquashfs")
-    s2t = ctx.build_tool("sqfs2tar")
-    d = ctx.scratch / "probe"
-    d.mkdir(exist_ok=True)
-    env = ctx.san_env()
-
-    def run(cmd, stdin=None, cwd=None):
-        try:
-            if stdin is not None:
-                with open(stdin, "rb") as f:
-                    return vlib.sh([str(c) for c in cmd], stdin=f, env=env, timeout=60, cwd=cwd)
-            return vlib.sh([str(c) for c in cmd], env=env, timeout=60, cwd=cwd)
-        except Exception as e:       # timeout
-            class R: returncode = 124; stdout = ""; stderr = "timeout: %s" % e
-            return R()
-
-    def refused(r):
-        return r.returncode != 0 and r.returncode < 90
-
-    def listing(img):
-        r = run([rd, "-d", img])
-        return r.returncode, r.stdout
-
-    def add(name, ok, r):
-        res.append((name, bool(ok), "exit %s %s" % (r.returncode, (r.stderr or "")[-200:].replace("\n", " | "))))
-
-    # a well-formed reference image: dir a, dir a/b, file a/b/f
-    (d / "f.bin").write_bytes(b"hello")
-    (d / "ref.txt").write_text("dir a 0755 0 0\ndir a/b 0755 0 0\nfile a/b/f 0644 0 0 %s\n" % (d / "f.bin"))
-    r = run([gen, "-F", d / "ref.txt", "-f", d / "ref.sqfs"])
-    add("reference image builds", r.returncode == 0, r)
-    # --- gensquashfs pack file (fstree_from_file.c) ---
-    for bad in ["a/../b", "..", "a/..", "../a", "a/b/../../c"]:
-        (d / "bad.txt").write_text("dir a 0755 0 0\ndir %s 0755 0 0\n" % bad)
-        r = run([gen, "-F", d / "bad.txt", "-f", d / "o1.sqfs"])
-        add("gensquashfs pack-file dir '%s' refused" % bad, refused(r), r)
-    (d / "ok.txt").write_text("dir /a//./b/ 0755 0 0\ndir ./c/. 0755 0 0\n")
-    r = run([gen, "-F", d / "ok.txt", "-f", d / "o2.sqfs"])
-    rc, ls = listing(d / "o2.sqfs")
-    add("gensquashfs canonicalises '/a//./b/' and './c/.'", r.returncode == 0 and rc == 0 and "dir a/b " in ls and "dir c " in ls and "." not in [w for l in ls.splitlines() for w in l.split()[1:2]], r)
-    # --- glob prefix (glob.c) ---
-    (d / "srcdir").mkdir(exist_ok=True)
-    (d / "srcdir" / "x").write_bytes(b"1")
-    (d / "glob.txt").write_text("glob p/../q 0644 0 0 -type f -- %s\n" % (d / "srcdir"))
-    r = run([gen, "-F", d / "glob.txt", "-f", d / "o3.sqfs"])
-    okp = refused(r)
-    if r.returncode == 0:
-        rc, ls = listing(d / "o3.sqfs")
-        okp = ".." not in ls
-    add("gensquashfs glob prefix 'p/../q' refused", okp, r)
-    # --- sort file (sort_by_file.c) and xattr file (filemap_xattr.c) ---
-    (d / "sort.txt").write_text("10 a/../a/b/f\n")
-    r = run([gen, "-F", d / "ref.txt", "-S", d / "sort.txt", "-f", d / "o4.sqfs"])
-    add("gensquashfs sort-file path 'a/../a/b/f' refused", refused(r), r)
-    (d / "sort2.txt").write_text("10 /a//b/./f\n")
-    r = run([gen, "-F", d / "ref.txt", "-S", d / "sort2.txt", "-f", d / "o4.sqfs"])
-    add("gensquashfs sort-file path '/a//b/./f' accepted", r.returncode == 0, r)
-    (d / "xa.txt").write_text("# file: a/../a/b/f\nuser.k=\"v\"\n")
-    r = run([gen, "-F", d / "ref.txt", "-A", d / "xa.txt", "-f", d / "o5.sqfs"])
-    add("gensquashfs xattr-file path 'a/../a/b/f' refused", refused(r), r)
-    # --- tar member names and link targets (tar/iterator.c, process_tarball.c, fstree.c) ---
-    for bad in ["a/../b", "../x", "a/.."]:
-        mktar(d / "t.tar", [("a", tarfile.DIRTYPE, None, b""), (bad, tarfile.REGTYPE, None, b"xyz")])
-        r = run([t2s, "-f", d / "o6.sqfs"], stdin=d / "t.tar")
-        okp = refused(r)
-        if r.returncode == 0:
-            rc, ls = listing(d / "o6.sqfs")
-            okp = rc == 0 and ".." not in ls
-        add("tar2sqfs member '%s' refused or skipped" % bad, okp, r)
-    mktar(d / "t2.tar", [("/x//./y/", tarfile.DIRTYPE, None, b""), ("./x/y/./z", tarfile.REGTYPE, None, b"q")])
-    r = run([t2s, "-f", d / "o7.sqfs"], stdin=d / "t2.tar")
-    rc, ls = listing(d / "o7.sqfs")
-    add("tar2sqfs canonicalises '/x//./y/' and './x/y/./z'", r.returncode == 0 and rc == 0 and "dir x/y " in ls and "file x/y/z " in ls, r)
-    mktar(d / "t3.tar", [("d", tarfile.DIRTYPE, None, b""), ("d/f", tarfile.REGTYPE, None, b"data"),
-                          ("l", tarfile.LNKTYPE, "d/../d/f", b"")])
-    r = run([t2s, "-f", d / "o8.sqfs"], stdin=d / "t3.tar")
-    add("tar2sqfs hard link target 'd/../d/f' refused", refused(r), r)
-    for opt in ["x/../y", ".."]:
-        r = run([t2s, "-r", opt, "-f", d / "o9.sqfs"], stdin=d / "t2.tar")
-        add("tar2sqfs --root-becomes '%s' refused" % opt, refused(r), r)
-    # --- rdsquashfs / sqfs2tar command line paths ---
-    for bad in ["a/../..", "..", "a/b/../../.."]:
-        r = run([rd, "-l", bad, d / "ref.sqfs"])
-        add("rdsquashfs -l '%s' refused" % bad, refused(r), r)
-    r = run([rd, "-l", "//a/./b/", d / "ref.sqfs"])
-    add("rdsquashfs -l '//a/./b/' lists a/b", r.returncode == 0 and " f" in r.stdout, r)
-    r = run([s2t, "-r", "p/../q", d / "ref.sqfs"])
-    add("sqfs2tar --root-becomes 'p/../q' refused", refused(r), r)
-    r = run([s2t, "-d", "a/../a", d / "ref.sqfs"])
-    add("sqfs2tar --subdir 'a/../a' refused", refused(r), r)
-    # --- names inside a hostile image (restore_fstree.c, fill_files.c, describe.c: is_filename_sane) ---
-    hostile = vlib.REPO / "bin" / "rdsquashfs" / "test" / "pathtraversal.sqfs"
-    if hostile.exists():
-        jail = d / "jail"
-        shutil.rmtree(jail, ignore_errors=True)
-        (jail / "R").mkdir(parents=True)
-        before = sorted(str(p.relative_to(jail)) for p in jail.rglob("*"))
-        r = run([rd, "-u", "/", "-p", jail / "R", hostile])
-        after = sorted(str(p.relative_to(jail)) for p in jail.rglob("*") if not str(p.relative_to(jail)).startswith("R/"))
-        add("rdsquashfs -u of pathtraversal.sqfs creates nothing outside R", after == before and not os.path.exists("/tmp/gotcha.txt") and r.returncode < 90, r)
-        r = run([rd, "-d", hostile])
-        bad_lines = [l for l in r.stdout.splitlines() if any(c in ("..", ".") for c in (l.split()[1].split("/") if len(l.split()) > 1 else []))]
-        add("rdsquashfs -d of pathtraversal.sqfs prints no '.'/'..' component", r.returncode < 90 and not bad_lines, r)
-    return res
+def funnel(ctx):
+    """the funnel clause: AST enumeration of every call site + a behavioural probe per site (checks/c18_funnel.py)"""
+    sites, info = c18_ast.enumerate_callsites(ctx)
+    calls = [s for s in sites if s.file not in c18_funnel.DEFINING_FILES]
+    if len(calls) < 10:
+        raise vlib.CheckFailure("C18 funnel: the AST enumeration found only %d call sites" % len(calls))
+    unprobed = [s for s in calls if s.key not in c18_funnel.COVER or s.kind != "call"]
+    if unprobed:
+        raise vlib.CheckFailure("C18 funnel: call site(s) without a probe (extend COVER in tools/checks/c18_funnel.py): " +
+                                ", ".join("%s line %s (%s)" % (s.key, s.line, s.kind) for s in unprobed))
+    F = c18_funnel.Funnel(ctx)
+    evals = F.run_all()
+    # every probe named in COVER must have evaluated something of each kind it is meant to show
+    for key, (probes, cls) in c18_funnel.COVER.items():
+        for pr in probes:
+            need = ["accept"] if cls == "B" else ["accept", "reject"]
+            for kind in need:
+                if F.counts[(pr, kind)] == 0:
+                    raise vlib.CheckFailure("C18 funnel: probe %s (site %s) made no %s evaluation" % (pr, key, kind))
+    shown = collections.Counter()
+    for e in evals:
+        if e.ok:
+            continue
+        shown[e.probe] += 1
+        if shown[e.probe] > 3:
+            continue
+        hx = tok(e.inp) if isinstance(e.inp, bytes) else "-"
+        ctx.violation("funnel:%s:%s" % (e.probe, hx),
+                      "funnel probe %s (%s input %r): expected %r, the working tree gave %r  [%s]" % (e.probe, e.kind, e.inp, e.expected, e.observed, e.detail[-200:]),
+                      {"probe": e.probe, "kind": e.kind, "input_hex": hx, "expected": repr(e.expected), "observed": repr(e.observed)})
+    found = {s.key for s in calls}
+    missing = [k for k in c18_funnel.COVER if k not in found]
+    for k in missing:
+        ctx.violation("funnel-callsite:" + k,
+                      "the call %s is no longer in the AST of the working tree: names reaching that place are not shown to pass through "
+                      "canonicalize_name/is_filename_sane any more (probes of that site: %s)" % (k, ", ".join(c18_funnel.COVER[k][0])),
+                      {"correspondence": "clang AST call-site enumeration (tools/checks/c18_ast.py) vs COVER (tools/checks/c18_funnel.py)", "missing": k},
+                      found_input=False)
+    return {"callsites": [s.as_dict() for s in calls], "sources_scanned": info["sources_scanned"], "files_mentioning": info["files_mentioning"],
+            "callsites_missing": missing, "tool_runs": F.runs, "evaluations": sum(F.counts.values()),
+            "evaluations_by_probe": {"%s/%s" % k: v for k, v in sorted(F.counts.items())},
+            "failed_by_probe": dict(F.failed), "repo_fixture": F.fixture_note,
+            "site_to_probes": {k: {"probes": v[0], "class": v[1]} for k, v in c18_funnel.COVER.items()},
+            "samples": [e.as_dict() for e in evals[:12]]}
 
 
 def run(ctx):
@@ -267,76 +287,25 @@ def run(ctx):
     if not ok:
         ctx.violation("proof:C18", "proof obligations of C18 no longer check: " + " | ".join(problems)[:1500],
                       {"broken": problems, "theorems_file": "lean/Sqfs/Props/C18.lean"}, found_input=False)
-    harness = ctx.cc("h_c18", ["h_c18.c", "lib/util/src/canonicalize_name.c", "lib/util/src/filename_sane.c"])
-    inputs, ncorpus, nexh, nrand = gen_inputs(ctx)
-    lines = []
-    for s in inputs:
-        lines.append("canon " + tok(s))
-        lines.append("sane " + tok(s))
-    impl, model, crash = run_pair(ctx, harness, lines)
-    if crash:
-        k, rc, err = crash
-        ctx.violation("crash:" + lines[min(k, len(lines) - 1)], "real code aborted (rc=%d) on input line %d: %s" % (rc, k, err[-400:]),
-                      {"line": lines[min(k, len(lines) - 1)], "stderr": err})
-        return ctx.finish(LEVEL)
-    # second pass for idempotence on the implementation's own outputs
-    results = [parse_canon(impl[2 * i]) for i in range(len(inputs))]
-    uniq_out = sorted({r for r in results if isinstance(r, bytes)})
-    lines2 = ["canon " + tok(r) for r in uniq_out]
-    impl2, model2, crash2 = run_pair(ctx, harness, lines2)
-    again = {r: parse_canon(l) for r, l in zip(uniq_out, impl2)} if not crash2 else {}
-    mism, nontrivial, clause_bad = 0, set(), 0
-    for i, s in enumerate(inputs):
-        res = results[i]
-        if isinstance(res, str):
-            ctx.violation("protocol:" + tok(s), "harness answered %r" % res, {"input_hex": tok(s)})
-            continue
-        res2 = again.get(res, "n/a") if res is not None else "n/a"
-        bad = clause_failures(s, res, res2)
-        sane_impl = impl[2 * i + 1]
-        if sane_impl not in ("0", "1") or (sane_impl == "1") != sane_spec(s):
-            bad.append("sane-iff")
-        diff = (impl[2 * i] != model[2 * i]) or (impl[2 * i + 1] != model[2 * i + 1])
-        if res is None or res != s:
-            nontrivial.add(s)
-        if bad:
-            clause_bad += 1
-            if clause_bad <= 5:
-                ctx.violation("input:" + tok(s), "canonicalize_name/is_filename_sane violate clause(s) %s on input %r: impl=%s model=%s" % (
-                    bad, s, impl[2 * i], model[2 * i]), {"input_hex": tok(s), "impl": [impl[2 * i], impl[2 * i + 1]],
-                                                        "model": [model[2 * i], model[2 * i + 1]], "clauses": bad})
-        elif diff:
-            mism += 1
-            if mism <= 5:
-                # cannot happen while canon_eq_spec holds (model = spec and impl meets every clause ⇒ impl = spec)
-                ctx.violation("corr:" + tok(s), "correspondence broke on %r (impl=%s model=%s) but no clause fails" % (s, impl[2 * i], model[2 * i]),
-                              {"input_hex": tok(s), "correspondence": "harness/h_c18.c vs Driver/C18.lean"}, found_input=False)
-    probes = tool_probes(ctx)
-    failed = [n for n, okp, _ in probes if not okp]
-    for name, okp, rc in probes:
-        if not okp:
-            ctx.violation("funnel:" + name, "tool-level funnel probe failed: %s (%s)" % (name, rc), {"probe": name, "detail": rc})
-    missing = callsite_scan(ctx)
-    if missing and not failed:
-        ctx.violation("funnel-callsite:" + ",".join(m["file"] for m in missing),
-                      "anchored call site(s) no longer route names through canonicalize_name/is_filename_sane: %s; no behavioural probe failed" % missing,
-                      {"correspondence": "call-site presence (tools/checks/c18.py CALLSITES)", "missing": missing}, found_input=False)
-    ctx.cov.update({
-        "evaluations": len(lines) + len(lines2) + len(probes),
-        "distinct_nontrivial": len(nontrivial),
-        "rule": "every string over {'/','.','a',0xC3} up to length %d (exhaustive: %d), %d corpus, %d seeded random strings up to 4 KiB; "
-                "each through canonicalize_name and is_filename_sane of the working tree (ASan+UBSan) and the Lean model; "
-                "non-trivial = distinct input that is refused or rewritten (output differs from input)" % (8 if ctx.quick() else 10, nexh, ncorpus, nrand),
-        "exhaustive": True,
-        "samples": [{"input": repr(inputs[i]), "impl": impl[2 * i], "model": model[2 * i]} for i in
-                    [ncorpus + 7, ncorpus + 333, ncorpus + 4242, len(inputs) - 1] if i < len(inputs)],
-        "disagreements_checked": mism + clause_bad,
-        "tool_probes": [{"probe": n, "ok": o, "detail": rc} for n, o, rc in probes],
-        "callsites_missing": missing,
-        "idempotence_second_pass_inputs": len(lines2),
-    })
-    return ctx.finish(LEVEL, trusted_extra=["C strings are modelled as their bytes before the NUL; in-place rewriting is modelled as read-original/emit-output (dst ≤ src lemmas norm_dst_le_src, canon_dst_le_src)",
-                                            "modelled: lib/util/src/canonicalize_name.c, lib/util/src/filename_sane.c (POSIX branch); the call sites that funnel names through them are probed at tool level, not proved"])
+    unit = unit_correspondence(ctx)
+    fun = funnel(ctx)
+    if unit is not None:
+        ctx.cov.update({
+            "evaluations": unit["evaluations"] + fun["evaluations"],
+            "distinct_nontrivial": unit["nontrivial"],
+            "rule": "unit: every string over {'/','.','a',0xC3} up to length %d (exhaustive: %d), %d corpus, %d seeded random strings up to 4 KiB; "
+                    "each through canonicalize_name and is_filename_sane of the working tree (ASan+UBSan) and the Lean model; "
+                    "non-trivial = distinct input that is refused or rewritten (output differs from input).  funnel: every call site "
+                    "found in the clang AST is driven through its tool/library entry with '..' in every position (plain and decorated), "
+                    "decorated clean paths and near misses; accept/reject and the stored name compared with the model" % (
+                        8 if ctx.quick() else 10, unit["nexh"], unit["ncorpus"], unit["nrand"]),
+            "exhaustive": True,
+            "samples": unit["samples"],
+            "disagreements_checked": unit["mism"] + unit["clause_bad"],
+            "idempotence_second_pass_inputs": unit["second_pass"],
+        })
+    ctx.cov["funnel"] = fun
+    return ctx.finish(LEVEL, trusted_extra=TRUSTED, assumptions=ASSUMPTIONS)
 
 
 def replay(ctx, path):
@@ -346,8 +315,15 @@ def replay(ctx, path):
         print("replay file names a broken obligation, no input to replay:", json.dumps(rp)[:500])
         return 1
     ok, _ = ctx.lean_build(["sqfsmodel"])
-    harness = ctx.cc("h_c18", ["h_c18.c", "lib/util/src/canonicalize_name.c", "lib/util/src/filename_sane.c"])
-    lines = ["canon " + rp["input_hex"], "sane " + rp["input_hex"]]
+    if "probe" in rp:
+        F = c18_funnel.Funnel(ctx)
+        evs = F.replay(rp["probe"], rp.get("kind", "accept"), untok(rp["input_hex"]))
+        bad = [e for e in evs if not e.ok]
+        for e in evs:
+            print("%s %s input=%r expected=%r observed=%r ok=%s" % (e.probe, e.kind, e.inp, e.expected, e.observed, e.ok))
+        return 1 if bad or not evs else 0
+    harness = ctx.cc("h_c18", ["h_c18.c", "lib/util/src/filename_sane.c"])
+    lines = ["canon " + rp["input_hex"], "sane " + rp["input_hex"]] + ["canonmem %s %s" % (rp["input_hex"], tok(t)) for t in TAILS]
     impl, model, crash = run_pair(ctx, harness, lines)
     print("input :", untok(rp["input_hex"]))
     print("impl  :", impl, "crash:", crash)
@@ -357,5 +333,10 @@ def replay(ctx, path):
     bad = clause_failures(s, res, "n/a") if not isinstance(res, str) else ["crash"]
     if len(impl) > 1 and ((impl[1] == "1") != sane_spec(s)):
         bad.append("sane-iff")
-    print("clauses violated:", bad)
-    return 1 if bad or crash else 0
+    if not isinstance(res, str):
+        for j, t in enumerate(TAILS):
+            if len(impl) > 2 + j:
+                bad += memory_clause_failures(s, t, res, impl[2 + j])
+    differ = bool(impl and model and impl != model)
+    print("clauses violated:", bad, "| model and code differ:", differ)
+    return 1 if bad or crash or differ else 0
